@@ -278,6 +278,11 @@ impl R {
     pub fn exp(self) -> (r: R) ensures r.v() == exp_spec(self.v()) { R { x: self.x.exp() } }
     #[verifier::external_body]
     pub fn floor(self) -> (r: R) ensures r.v() == floor_spec(self.v()) as real { R { x: self.x.floor() } }
+    // ceil(x) = -floor(-x); trunc: toward zero
+    #[verifier::external_body]
+    pub fn ceil(self) -> (r: R) ensures r.v() == (-floor_spec(-self.v())) as real { R { x: self.x.ceil() } }
+    #[verifier::external_body]
+    pub fn trunc(self) -> (r: R) ensures r.v() == (if self.v() >= 0real { floor_spec(self.v()) } else { -floor_spec(-self.v()) }) as real { R { x: self.x.trunc() } }
     #[verifier::external_body]
     pub fn round(self) -> (r: R) ensures r.v() == round_spec(self.v()) as real { R { x: self.x.round() } }
     // `as usize` on a float: truncation toward zero, saturating (NaN does not exist in the ideal model)
